@@ -2,6 +2,41 @@ import Isotp.PyAgree.Exec2Bridge
 import Isotp.PyAgree.EvalLemmas
 import Isotp.Threaded
 
+/-!
+  The lifecycle methods of the threaded wrapper `TransportLayer` (isotp/protocol.py) and of `NotifierBasedCanStack`: the interpreted
+  source (`Src.TransportLayer_start`, `_stop`, `_stop_sending`, `_stop_receiving`, `_p_relay_thread_fn`, `Src.NotifierBasedCanStack_start`,
+  `_stop`) does what the model's `TL` functions (`Isotp/Threaded.lean`) say, FOR EVERY WRAPPER STATE `t : TL`.
+
+  ## Presentation (section 1)
+  * `self.started ↦ pbool t.started`; `self.main_thread` / `self.relay_thread ↦ None` or a `Thread` object (`handlePV`); whether a thread of
+    the role is alive under `#alive.main` / `#alive.relay` (what `is_alive()` answers).  The liveness key outlives the handle: after
+    `self.main_thread = None` a thread that was still running stays visible, which is what makes `H-join` matter for the final state.
+    `Thr.finished` is shown as "a Thread object that is not alive" - also how a created, not yet started thread looks.
+  * the seven `threading.Event`s under `#ev.<name>` (`Ev7`), `self.rx_relay_queue` under the history key `#relay_queue` (`encQ t.relayQ`),
+    the function `_set_rxfn` installed last under `self.rxfn`, the frames the user's `rxfn` will still return under `#bus`.
+  * the logic layer `t.core` through an ABSTRACT relation `R env s` (as `ResetCallees` in LayerQueues.lean), required not to look at the
+    wrapper's keys and not to show `State.inbox` (`CoreRel`).  The model's `core.inbox` - frames the worker took out of `relayQ` that `process`
+    has not read - has no attribute of its own in the real object (they are still in `rx_relay_queue`); `stop` dropping it is vacuous here.
+  * float literals (`__float__ "1.0"`) and `max(self.default_read_timeout + 0.5, 1.0)` are opaque numbers (an integer stands for each); they
+    are only ever timeouts of `wait` / `join`, which are OUTSIDE the model: they matter for the real-time bound only, which is measured,
+    not proved (DESIGN C14).  Logging calls are dropped by the dumper.
+
+  ## Assumptions (section 3, `Spec`): the sequential meaning of the primitives, plus the named CONTRACT assumptions
+  `hJoin` / `hJoinRelay` (H-join: a thread asked to stop is dead when `join(timeout)` returns), `hWorkerExit` (the model abstracts the whole
+  worker between the stop request and its death into `TL.workerExit`: its `finally: reset()` has run), `hReady` / `hReadyRelay` (a started
+  thread has set its ready flag when `wait(0.5)` returns), `hServe` / `hServeRx` (a live worker serves a `reset_tx` / `reset_rx` request
+  while the caller waits on a completion flag THAT IS NOT ALREADY SET), `waitSet` (`wait` on a set flag returns at once).
+  Section 9 gives a concrete world in which all of them hold (`thrMeths_spec`, `thrMeths_relay`, `nbMeths_spec`, `worldEnv_shows`), so no
+  theorem is vacuous, and runs the interpreter on it in the kernel.
+
+  ## Theorems
+  * `start_refuses` (any callees), `start_runs`, `start_agrees`, `start_raises_iff`            - `TL.start`
+  * `stop_agrees`, `stop_final_env` (second semantics; fuel `≥ |relayQ| + 30`)                - `TL.stop`, from ANY state (D3 included)
+  * `stop_sending_agrees`, `stop_receiving_agrees`                                            - `TL.stopSending`, `TL.stopReceiving`
+  * `stop_sending_stale_before_fix`, `stop_receiving_stale_before_fix`                        - the defect found here (fixed: 6eb6a7e)
+  * `relay_iteration`                                                                         - `TL.relayStep`
+  * `nb_start_refuses`, `nb_start_refuses_env` (D16: no reader before the refusal), `nb_start_runs`, `nb_stop_agrees`
+-/
 namespace Isotp.PyAgree.Thr
 open Isotp Isotp.Py
 
@@ -305,14 +340,14 @@ theorem St.newHandleMain (hR : CoreRel R) (h : St R env0 env t) :
       { t with mainThread := if isRunning t.mainThread then .running else .finished } := by
   obtain ⟨⟨f1, f2, f3, f4, f5, f6, f7, f8, f9, f10, f11, f12, f13, f14, f15, f16, f17, f18, f19, f20⟩, hc, hk⟩ := h
   refine ⟨?_, hR.frame _ _ _ _ (by decide) hc, keep_set hk _ _ (by decide)⟩
-  cases hm : t.mainThread <;> constructor <;> simp [Env.set, hm, isRunning, handlePV, *]
+  cases hm : t.mainThread <;> constructor <;> simp [Env.set, isRunning, handlePV, *]
 
 theorem St.newHandleRelay (hR : CoreRel R) (h : St R env0 env t) :
     St R env0 (env.set "self.relay_thread" (.meth "Thread"))
       { t with relayThread := if isRunning t.relayThread then .running else .finished } := by
   obtain ⟨⟨f1, f2, f3, f4, f5, f6, f7, f8, f9, f10, f11, f12, f13, f14, f15, f16, f17, f18, f19, f20⟩, hc, hk⟩ := h
   refine ⟨?_, hR.frame _ _ _ _ (by decide) hc, keep_set hk _ _ (by decide)⟩
-  cases hm : t.relayThread <;> constructor <;> simp [Env.set, hm, isRunning, handlePV, *]
+  cases hm : t.relayThread <;> constructor <;> simp [Env.set, isRunning, handlePV, *]
 
 /-- `self.main_thread = None`, when no thread of the role is alive -/
 theorem St.noneHandleMain (hR : CoreRel R) (h : St R env0 env t) (hnr : isRunning t.mainThread = false) :
@@ -336,7 +371,7 @@ theorem St.setAliveMain (hR : CoreRel R) (h : St R env0 env t) (b : Bool) (hh : 
   refine ⟨?_, hR.frame _ _ _ _ (by decide) hc, keep_set hk _ _ (by decide)⟩
   have f2' : env "self.main_thread" = some (.meth "Thread") := by
     rw [f2]; cases hm : t.mainThread <;> simp_all [handlePV]
-  cases b <;> constructor <;> simp [Env.set, isRunning, handlePV, f2', *]
+  cases b <;> constructor <;> simp [Env.set, isRunning, handlePV, *]
 
 theorem St.setAliveRelay (hR : CoreRel R) (h : St R env0 env t) (b : Bool) (hh : t.relayThread ≠ .none) :
     St R env0 (env.set "#alive.relay" (pbool b)) { t with relayThread := if b then .running else .finished } := by
@@ -344,7 +379,7 @@ theorem St.setAliveRelay (hR : CoreRel R) (h : St R env0 env t) (b : Bool) (hh :
   refine ⟨?_, hR.frame _ _ _ _ (by decide) hc, keep_set hk _ _ (by decide)⟩
   have f3' : env "self.relay_thread" = some (.meth "Thread") := by
     rw [f3]; cases hm : t.relayThread <;> simp_all [handlePV]
-  cases b <;> constructor <;> simp [Env.set, isRunning, handlePV, f3', *]
+  cases b <;> constructor <;> simp [Env.set, isRunning, handlePV, *]
 
 /-- an operation of the logic layer: the wrapper keys keep their values, the new environment shows the new core -/
 theorem St.congr (h : St R env0 env t) (env' : Env) (s' : State) (hfr : ∀ k ∈ wrapperKeys, env' k = env k) (hc' : R env' s') :
@@ -1588,6 +1623,12 @@ def qGetP (env : Env) : Except PErr Env :=
      | none => .error (.unsupported "Queue.get() on an empty queue: blocks forever"))
   | _ => .error (.exc .AttributeError)
 
+/-- one more / one fewer reader registered on the notifier -/
+def lsnAdd (d : Int) (env : Env) : Except PErr Env :=
+  match env "#listeners" with
+  | some (.sc (.py (.int n))) => .ok (env.set "#listeners" (pint (n + d)))
+  | _ => .error (.exc .AttributeError)
+
 def thrFn (name : String) (args : List PV) (env : Env) : Except PErr PV :=
   match name, args with
   | "self.events.main_thread_ready.is_set", [] => getBool env "#ev.main_thread_ready"
@@ -1658,12 +1699,8 @@ def thrProc (name : String) (args : List PV) (env : Env) : Except PErr Env :=
   | "self._stop_sending#success", [_] => .ok (coreIdle env true false)
   | "self._stop_receiving", [] => .ok (coreIdle env false true)
   | "time.sleep", [_] => .ok env
-  | "self.notifier.add_listener", [_] =>
-    (match env "#listeners" with
-     | some (.sc (.py (.int n))) => .ok (env.set "#listeners" (pint (n + 1))) | _ => .error (.exc .AttributeError))
-  | "self.notifier.remove_listener", [_] =>
-    (match env "#listeners" with
-     | some (.sc (.py (.int n))) => .ok (env.set "#listeners" (pint (n - 1))) | _ => .error (.exc .AttributeError))
+  | "self.notifier.add_listener", [_] => lsnAdd 1 env
+  | "self.notifier.remove_listener", [_] => lsnAdd (-1) env
   | n, _ => .error (.unsupported ("call " ++ n))
 
 def thrMeths : Meths := { fn := thrFn, proc := thrProc }
@@ -1712,7 +1749,7 @@ theorem thrMeths_spec : Spec thrMeths R0 where
     show qPut pnone env = _
     unfold qPut
     rw [h]
-    simp [encQ_append, encQ, encItem]
+    simp [encQ, encItem]
   qEmpty := by
     intro env q h
     show qEmptyF env = _
@@ -1807,4 +1844,216 @@ theorem thrMeths_spec : Spec thrMeths R0 where
     coreIdle_R0 env s _ false true hR (by simp [stopReceiving_states]) (by simp [stopReceiving_states]),
     fun _ hk => coreIdle_wrapper env false true hk⟩
 
+
+theorem thrMeths_relay : RelaySpec thrMeths where
+  throttled := fun _ => ⟨false, rfl⟩
+  clock := fun _ => ⟨0, rfl⟩
+  sleepTime := fun _ => ⟨0, rfl⟩
+  sleep := fun _ _ => rfl
+  userRx := by
+    intro env v b h
+    show busPeek env = _
+    unfold busPeek
+    rw [h]
+    simp only [encQ_isEmpty]
+    cases b <;> rfl
+  putMsg := by
+    intro env m rest q hb hq
+    show qPut (.meth "CanMessage") env = _
+    unfold qPut
+    rw [hq, hb]
+    have : encQ ((m :: rest).map some) = encItem (some m) ++ encQ (rest.map some) := by simp [encQ_cons]
+    rw [this]
+    simp only [takeItem_enc]
+    simp [pnone, encQ_append, encQ_cons, encQ_nil]
+
+theorem encQ_length_ge (q : List (Option CanMsg)) : q.length ≤ (encQ q).length := by
+  induction q with
+  | nil => simp [encQ]
+  | cons x q ih =>
+    rw [encQ_cons, List.length_append, List.length_cons]
+    have : 1 ≤ (encItem x).length := by
+      have := encItem_ne_nil x
+      cases hx : encItem x with
+      | nil => exact absurd hx this
+      | cons _ _ => simp
+    omega
+
+def keyLen (k : String) (env : Env) : Nat :=
+  match env k with
+  | some (.list xs) => xs.length
+  | _ => 0
+
+/-- `super().start()` / `super().stop()` ARE the interpreted sources of `TransportLayer.start` / `.stop` (run under `thrMeths`) -/
+def superStartP (env : Env) : Except PErr Env := (runFn thrMeths env Src.TransportLayer_start).map (·.2)
+def superStopP (env : Env) : Except PErr Env :=
+  match run2 (keyLen "#relay_queue" env + 30) thrMeths env Src.TransportLayer_stop with
+  | .ok (.ret _ e) => .ok e
+  | _ => .error (.unsupported "super().stop() did not return")
+
+def nbProc (name : String) (args : List PV) (env : Env) : Except PErr Env :=
+  match name, args with
+  | "super().start", [] => superStartP env
+  | "super().stop", [] => superStopP env
+  | n, a => thrProc n a env
+
+def nbMeths : Meths := { fn := thrFn, proc := nbProc }
+
+theorem nbMeths_spec : NbSpec nbMeths R0 where
+  newReader := fun _ => rfl
+  addListener := by
+    intro env v n h
+    show lsnAdd 1 env = _
+    unfold lsnAdd
+    rw [h]
+  removeListener := by
+    intro env v n h
+    left
+    show lsnAdd (-1) env = _
+    unfold lsnAdd
+    rw [h]
+    rfl
+  superStart := by
+    intro env t h hs
+    obtain ⟨env', h1, h2⟩ := start_runs thrMeths_spec R0_coreRel env t h hs
+    refine ⟨env', ?_, h2.shows, h2.keep⟩
+    show superStartP env = _
+    unfold superStartP
+    rw [h1]; rfl
+  superStop := by
+    intro env t h
+    obtain ⟨env', h1, h2, -, h4⟩ := stop_agrees thrMeths_spec R0_coreRel env t h
+    refine ⟨env', ?_, h2, h4⟩
+    show superStopP env = _
+    unfold superStopP
+    have hk : keyLen "#relay_queue" env = (encQ t.relayQ).length := by unfold keyLen; rw [h.1.q]
+    rw [h1 _ (by rw [hk]; have := encQ_length_ge t.relayQ; omega)]
+
+/-- an environment that shows `t` (with the logic layer shown by `R0`), a reader / listener count, and the `blocking_rxfn` attribute -/
+def worldEnv (t : TL) (reader : Bool) (n : Int) (bl : Bool) : Env := fun k =>
+  match k with
+  | "self.started" => some (pbool t.started)
+  | "self.main_thread" => some (handlePV t.mainThread)
+  | "self.relay_thread" => some (handlePV t.relayThread)
+  | "#alive.main" => some (pbool (isRunning t.mainThread))
+  | "#alive.relay" => some (pbool (isRunning t.relayThread))
+  | "#ev.main_thread_ready" => some (pbool t.ev.mainReady)
+  | "#ev.relay_thread_ready" => some (pbool t.ev.relayReady)
+  | "#ev.stop_requested" => some (pbool t.ev.stopRequested)
+  | "#ev.reset_tx" => some (pbool t.ev.resetTx)
+  | "#ev.reset_rx" => some (pbool t.ev.resetRx)
+  | "#ev.reset_tx_complete" => some (pbool t.ev.resetTxComplete)
+  | "#ev.reset_rx_complete" => some (pbool t.ev.resetRxComplete)
+  | "#relay_queue" => some (.list (encQ t.relayQ))
+  | "self.rxfn" => some (rxfnPV t.rxfnIsRelay)
+  | "self._read_relay_queue" => some (rxfnPV true)
+  | "self.user_rxfn" => some (rxfnPV false)
+  | "self._main_thread_fn" => some (.meth "self._main_thread_fn")
+  | "self._relay_thread_fn" => some (.meth "self._relay_thread_fn")
+  | "self.default_read_timeout" => some (pint 0)
+  | "#bus" => some (.list (encQ (t.bus.map some)))
+  | "self.blocking_rxfn" => some (pbool bl)
+  | "self.buffered_reader" => some (if reader then .meth "BufferedReader" else pnone)
+  | "#listeners" => some (pint n)
+  | "self.tx_state" => some (txPV t.core.txState)
+  | "self.rx_state" => some (rxPV t.core.rxState)
+  | _ => none
+
+theorem worldEnv_shows (t : TL) (reader : Bool) (n : Int) (bl : Bool) :
+    Shows R0 (worldEnv t reader n bl) t ∧ NbShows (worldEnv t reader n bl) reader n ∧
+    worldEnv t reader n bl "self.blocking_rxfn" = some (pbool bl) :=
+  ⟨⟨⟨rfl, rfl, rfl, rfl, rfl, rfl, rfl, rfl, rfl, rfl, rfl, rfl, rfl, rfl, rfl, rfl, rfl, rfl, ⟨0, rfl⟩, rfl⟩, rfl, rfl⟩, ⟨rfl, rfl⟩, rfl⟩
+
+/-! ### every theorem applies to every wrapper state in this world -/
+
+example (t : TL) :
+    match (TL.start t).2 with
+    | some e => runFn thrMeths (worldEnv t false 0 true) Src.TransportLayer_start = .error (.exc e)
+    | none => ∃ env', runFn thrMeths (worldEnv t false 0 true) Src.TransportLayer_start = .ok (pnone, env') ∧
+        Shows R0 env' (TL.start t).1 ∧ ∀ k ∈ passiveKeys, env' k = worldEnv t false 0 true k :=
+  start_agrees thrMeths_spec R0_coreRel _ t (worldEnv_shows t false 0 true).1
+
+example (t : TL) : ∃ env', (∀ n, t.relayQ.length + 30 ≤ n →
+      run2 n thrMeths (worldEnv t false 0 true) Src.TransportLayer_stop = .ok (.ret pnone env')) ∧ Shows R0 env' (TL.stop t).1 := by
+  obtain ⟨env', h1, h2, -⟩ := stop_agrees thrMeths_spec R0_coreRel _ t (worldEnv_shows t false 0 true).1
+  exact ⟨env', h1, h2⟩
+
+example (t : TL) : ∃ env', runFn thrMeths (worldEnv t false 0 true) Src.TransportLayer_stop_sending = .ok (pnone, env') ∧
+    Shows R0 env' (TL.stopSending t).1 := by
+  obtain ⟨env', h1, h2, -⟩ := stop_sending_agrees thrMeths_spec R0_coreRel _ t (worldEnv_shows t false 0 true).1
+  exact ⟨env', h1, h2⟩
+
+example (t : TL) : ∃ env', runFn thrMeths (worldEnv t false 0 true) Src.TransportLayer_stop_receiving = .ok (pnone, env') ∧
+    Shows R0 env' (TL.stopReceiving t).1 := by
+  obtain ⟨env', h1, h2, -⟩ := stop_receiving_agrees thrMeths_spec R0_coreRel _ t (worldEnv_shows t false 0 true).1
+  exact ⟨env', h1, h2⟩
+
+example (t : TL) (hrun : t.relayThread = .running) (hsr : t.ev.stopRequested = false) :
+    ∃ env', Shows R0 env' (TL.relayStep t) ∧ ∀ n, 12 ≤ n →
+      exec2S (n + 1) thrMeths (worldEnv t false 0 true) (.while_ relayCond relayBody) =
+        exec2S n thrMeths env' (.while_ relayCond relayBody) := by
+  obtain ⟨env', h1, -, -, h4⟩ :=
+    (relay_iteration thrMeths_spec thrMeths_relay R0_coreRel _ t (worldEnv_shows t false 0 true).1 true
+      (worldEnv_shows t false 0 true).2.2 hrun).2 hsr
+  exact ⟨env', h1, h4⟩
+
+example (t : TL) (r : Bool) (n : Int) : ∃ env' n', (∀ f, 15 ≤ f →
+    run2 f nbMeths (worldEnv t r n true) Src.NotifierBasedCanStack_stop = .ok (.ret pnone env')) ∧
+    Shows R0 env' (TL.stop t).1 ∧ NbShows env' false n' := by
+  obtain ⟨env', n', h1, h2, h3, -⟩ := nb_stop_agrees nbMeths_spec R0_coreRel _ t r n (worldEnv_shows t r n true).1
+    (worldEnv_shows t r n true).2.1
+  exact ⟨env', n', h1, h2, h3⟩
+
+/-- the pre-fix disagreement is not vacuous either: a state with the stale flag -/
+example : ∃ (t : TL) (env env' : Env), Shows R0 env t ∧ runFn thrMeths env stopSendingBeforeFix = .ok (pnone, env') ∧
+    ¬ Shows R0 env' (TL.stopSending t).1 := by
+  let t : TL := { core := default, started := true, mainThread := .running, relayThread := .running,
+                  ev := { resetTxComplete := true }, rxfnIsRelay := true }
+  obtain ⟨env', h1, -, h3⟩ := stop_sending_stale_before_fix thrMeths_spec R0_coreRel _ t (worldEnv_shows t false 0 true).1 rfl rfl rfl rfl
+  exact ⟨t, _, env', (worldEnv_shows t false 0 true).1, h1, h3⟩
+
+
+/-! ### ... and the world really runs: the kernel evaluates the interpreter on the dumped `stop`
+
+  A started layer with a running worker and relay thread, a wake-up token and a frame in the relay queue: `stop()` returns and leaves
+  `started = False`, no thread alive, both handles `None`, the queue empty, the user `rxfn` restored.  (The fuel bound of `stop_agrees`,
+  `|relayQ| + 30`, is sufficient, not tight: this run needs 18.) -/
+
+def demoMsg : CanMsg := { id := 1, ext := false, data := [1, 2] }
+def demoTL : TL :=
+  { core := default, started := true, mainThread := Isotp.Thr.running, relayThread := Isotp.Thr.running,
+    relayQ := [none, some demoMsg], ev := { mainReady := true, relayReady := true }, rxfnIsRelay := true }
+
+def demoStop (n : Nat) : Bool :=
+  match run2 n thrMeths (worldEnv demoTL false 0 true) Src.TransportLayer_stop with
+  | .ok (.ret _ e) =>
+    e "self.started" == some (pbool false) && e "#alive.main" == some (pbool false) && e "#alive.relay" == some (pbool false) &&
+    e "#relay_queue" == some (.list []) && e "self.main_thread" == some pnone && e "self.relay_thread" == some pnone &&
+    e "self.rxfn" == some (.meth "self.user_rxfn") && e "#ev.stop_requested" == some (pbool false) &&
+    e "self.tx_state" == some (txPV .idle)
+  | _ => false
+
+example : demoStop 32 = true ∧ demoStop 18 = true ∧ demoStop 17 = false := by decide
+
 end Isotp.PyAgree.Thr
+
+#print axioms Isotp.PyAgree.Thr.start_refuses
+#print axioms Isotp.PyAgree.Thr.start_runs
+#print axioms Isotp.PyAgree.Thr.start_agrees
+#print axioms Isotp.PyAgree.Thr.start_raises_iff
+#print axioms Isotp.PyAgree.Thr.stop_agrees
+#print axioms Isotp.PyAgree.Thr.stop_final_env
+#print axioms Isotp.PyAgree.Thr.stop_sending_agrees
+#print axioms Isotp.PyAgree.Thr.stop_receiving_agrees
+#print axioms Isotp.PyAgree.Thr.stop_sending_stale_before_fix
+#print axioms Isotp.PyAgree.Thr.stop_receiving_stale_before_fix
+#print axioms Isotp.PyAgree.Thr.nb_start_refuses
+#print axioms Isotp.PyAgree.Thr.nb_start_refuses_env
+#print axioms Isotp.PyAgree.Thr.nb_start_runs
+#print axioms Isotp.PyAgree.Thr.nb_stop_agrees
+#print axioms Isotp.PyAgree.Thr.relay_iteration
+#print axioms Isotp.PyAgree.Thr.thrMeths_spec
+#print axioms Isotp.PyAgree.Thr.thrMeths_relay
+#print axioms Isotp.PyAgree.Thr.nbMeths_spec
+#print axioms Isotp.PyAgree.Thr.R0_coreRel
+#print axioms Isotp.PyAgree.Thr.worldEnv_shows
